@@ -103,7 +103,7 @@ PROFILES = {
                    p_all_fixed=0.01, p_callback=0.6),
     "C02": profile(p_bounds=0.8, p_scale=0.4, p_nonlinear=0.6, p_linear=0.5, p_fixed=0.45, p_dict=0.4,
                    p_inconsistent=0.01, p_all_fixed=0.03),
-    "C03": profile(p_nonlinear=0.7, p_linear=0.4, p_filter=0.0, p_noise=0.2),
+    "C03": profile(p_nonlinear=0.7, p_linear=0.3, p_filter=0.4, p_noise=0.2),
     "C05": profile(p_no_obj=0.2, p_history=0.7, p_callback=0.4),
     "C06": profile(p_nonlinear=1.0, p_no_obj=0.15, p_disp=0.25, p_scale=0.35, p_fixed=0.4, p_dict=0.4,
                    p_mutating_functions=0.2),
